@@ -1,10 +1,10 @@
 SPECIFICATION TraceSpec
 CONSTANTS
-  MaxEpoch = 1
-  NSenders = 1
+  MaxEpoch = 1000
+  NSenders = 2
   RSigs = {"ok"}
   RSchemes = {"sha512"}
   RObjs = {"valid"}
   RCnrs = {"known"}
-INVARIANTS RecWellFormed StoredOnlyIfAccepted OkOnlyIfAccepted OkMeansStored AcceptedWhenAllChecksPass
+INVARIANTS StoredOnlyIfAccepted OkOnlyIfAccepted OkMeansStored AcceptedWhenAllChecksPass TraceNotStuck
 CHECK_DEADLOCK FALSE
